@@ -125,10 +125,12 @@ def run_shard(sh, ctx):
 		# the same metric properties for the distance as reported by the bulk entry points (list-backed and concatenated references)
 		from gambit.sigs.base import SignatureArray, SignatureList
 		w0 = sh['widths'][0]
-		for cname, cont in (('list', list(arrs[w0])), ('SignatureList', SignatureList(list(arrs[w0]), None, dtype=np.dtype(w0))), ('SignatureArray', SignatureArray(arrs[w0], None, dtype=np.dtype(w0)))):
+		mixed = [arrs[sh['widths'][i % len(sh['widths'])]][i] for i in range(n)]     # the same sets, stored in alternating integer widths
+		for cname, cont in (('list', list(arrs[w0])), ('SignatureList', SignatureList(list(arrs[w0]), None, dtype=np.dtype(w0))), ('SignatureArray', SignatureArray(arrs[w0], None, dtype=np.dtype(w0))),
+		                    ('mixed-width list', list(mixed)), ('mixed-width SignatureList', SignatureList(list(mixed), None))):
 			Tb = np.empty((n, n), dtype='f8')
 			for i in range(n):
-				Tb[i, :] = gm.jaccarddist_array(arrs[sh['widths'][-1]][i], cont)
+				Tb[i, :] = gm.jaccarddist_array(arrs[sh['widths'][-1]][i], cont) if 'list' != cname[-4:] or i % 2 else gm.jaccarddist_matrix([arrs[sh['widths'][-1]][i]], cont)[0]
 			ctx.count(f'bulk_tables:{cname}')
 			ctx.evals += n * n
 			for i in range(n):
